@@ -308,6 +308,80 @@ class Evaluator:
     def s_Pass(self, st, fr):
         return None
 
+    # ------------------------------------------------------------------ match statements: desugared into the equivalent if/elif chain
+    def s_Match(self, st, fr):
+        tmp = "__match_subject_%d" % st.lineno
+        stmts = [ast.Assign(targets=[ast.Name(id=tmp, ctx=ast.Store())], value=st.subject)]
+
+        def subj():
+            return ast.Name(id=tmp, ctx=ast.Load())
+
+        def conj(tests):
+            tests = [t for t in tests if not (isinstance(t, ast.Constant) and t.value is True)]
+            if not tests:
+                return ast.Constant(value=True)
+            return tests[0] if len(tests) == 1 else ast.BoolOp(op=ast.And(), values=tests)
+
+        def pat(p, sub):
+            """(test expression, [(capture name, value expression)]) for pattern p matched against expression sub."""
+            if isinstance(p, ast.MatchValue):
+                return ast.Compare(left=sub, ops=[ast.Eq()], comparators=[p.value]), []
+            if isinstance(p, ast.MatchSingleton):
+                return ast.Compare(left=sub, ops=[ast.Is()], comparators=[ast.Constant(value=p.value)]), []
+            if isinstance(p, ast.MatchAs):
+                if p.pattern is None:
+                    return ast.Constant(value=True), ([(p.name, sub)] if p.name else [])
+                t, caps = pat(p.pattern, sub)
+                return t, caps + ([(p.name, sub)] if p.name else [])
+            if isinstance(p, ast.MatchClass) and not p.patterns and not p.kwd_patterns:
+                return ast.Call(func=ast.Name(id="isinstance", ctx=ast.Load()), args=[sub, p.cls], keywords=[]), []
+            if isinstance(p, ast.MatchOr):
+                parts = [pat(q, sub) for q in p.patterns]
+                if any(c for _, c in parts):
+                    raise NotImplementedError("captures inside an or-pattern")
+                return ast.BoolOp(op=ast.Or(), values=[t for t, _ in parts]), []
+            if isinstance(p, ast.MatchSequence) and not any(isinstance(q, ast.MatchStar) for q in p.patterns):
+                n = len(p.patterns)
+                tests = [ast.Call(func=ast.Name(id="isinstance", ctx=ast.Load()), args=[sub, ast.Tuple(elts=[ast.Name(id="list", ctx=ast.Load()), ast.Name(id="tuple", ctx=ast.Load())], ctx=ast.Load())], keywords=[]),
+                         ast.Compare(left=ast.Call(func=ast.Name(id="len", ctx=ast.Load()), args=[sub], keywords=[]), ops=[ast.Eq()], comparators=[ast.Constant(value=n)])]
+                caps = []
+                for i, q in enumerate(p.patterns):
+                    t, c = pat(q, ast.Subscript(value=sub, slice=ast.Constant(value=i), ctx=ast.Load()))
+                    tests.append(t)
+                    caps += c
+                return conj(tests), caps
+            raise NotImplementedError(f"match pattern {type(p).__name__}")
+        chain = None
+        tail = None
+        for case in st.cases:
+            t, caps = pat(case.pattern, subj())
+            body = [ast.Assign(targets=[ast.Name(id=n, ctx=ast.Store())], value=v) for n, v in caps] + list(case.body)
+            if case.guard is not None:
+                # captures must be visible to the guard: bind them first in a conditional-free way is not possible; guards on captures are rare
+                t = conj([t, case.guard]) if not caps else t
+            if isinstance(t, ast.Constant) and t.value is True and case.guard is None:
+                # irrefutable case: the else branch of the chain
+                if tail is None:
+                    chain = body if chain is None else chain
+                    if chain is body:
+                        break
+                else:
+                    tail.orelse = body
+                break
+            node = ast.If(test=t, body=body, orelse=[])
+            if tail is None:
+                chain = [node]
+            else:
+                tail.orelse = [node]
+            tail = node
+        for n_ in stmts + (chain or []):
+            ast.fix_missing_locations(ast.copy_location(n_, st))
+        for n_ in stmts + (chain or []):
+            for sub_ in ast.walk(n_):
+                if not hasattr(sub_, "lineno"):
+                    ast.copy_location(sub_, st)
+        return self.block(stmts + (chain or []), fr)
+
     def s_Import(self, st, fr):
         for a in st.names:
             fr.env[a.asname or a.name.split(".")[0]] = ("name", a.name if a.asname else a.name.split(".")[0])
@@ -504,7 +578,13 @@ class Evaluator:
                 out[k] = ("ifexp", c, va if va is not None else miss, vb if vb is not None else miss)
         return out
 
-    def static_truth(self, c):
+    def static_truth(self, c, fr=None):
+        if fr is not None and c[0] == "cmp" and c[1] in ("is", "is not") and is_const(c[3], None) and c[2][0] == "attr" \
+                and c[2][1] == ("param", "self") and fr.cls:
+            # a method of the enclosing class looked up on self is never None
+            cnode = fr.module.defs.get(fr.cls)
+            if isinstance(cnode, ast.ClassDef) and isinstance(self.p.class_member(cnode, c[2][2], fr.module), ast.FunctionDef):
+                return c[1] == "is not"
         if c[0] == "const":
             try:
                 return bool(c[1])
@@ -865,9 +945,21 @@ class Evaluator:
             left = right
         if len(parts) == 1:
             p = parts[0]
-            sv = self.static_truth(p)
+            sv = self.static_truth(p, fr)
             if sv is not None and p[1] in ("is", "is not"):
                 return C(sv)
+            if p[1] in ("is", "is not") and is_const(p[3], None) and p[2][0] == "ifexp" and p[2][2] != NORET and p[2][3] != NORET:
+                # (a if c else b) is None  ==  (a is None) if c else (b is None), folded where an arm is statically (not) None
+                def dist(t):
+                    if t[0] == "ifexp" and t[2] != NORET and t[3] != NORET:
+                        a, b = dist(t[2]), dist(t[3])
+                        if a == b and a[0] == "const":
+                            return a
+                        return ("ifexp", t[1], a, b)
+                    q = ("cmp", p[1], t, p[3])
+                    v = self.static_truth(q, fr)
+                    return C(v) if v is not None else q
+                return dist(p[2])
             return p
         return ("boolop", "and", tuple(parts))
 
@@ -1004,7 +1096,7 @@ class Evaluator:
         # (A if c else B)(*(TA if c else TB))  ==  A(*TA) if c else B(*TB): a call through a conditional callee or a conditional
         # argument splat is distributed over the condition (same condition resolved consistently in callee, operands and options)
         c = self._cond_of_call(fn, tuple(args))
-        if c is not None and getattr(self, "_distributing", 0) < 3:
+        if c is not None and getattr(self, "_distributing", 0) < 6:
             def refold(x):
                 # structural constants that become known once the condition is resolved
                 if x[0] == "call" and x[1] == ("name", "builtins.len") and len(x[2]) == 1 and x[2][0][0] in ("tuple", "list") \
@@ -1106,6 +1198,10 @@ class Evaluator:
                 it = self.known_items(args[0])
                 if it is not None:
                     return C(len(it))
+            if nm == "builtins.slice" and 1 <= len(args) <= 3 and not kwargs:
+                a_ = list(args)
+                lo, hi, st = (NONE, a_[0], NONE) if len(a_) == 1 else (a_[0], a_[1], a_[2] if len(a_) == 3 else NONE)
+                return ("slice", lo, hi, st)
             if nm == "builtins.getattr" and len(args) in (2, 3) and args[1][0] == "const" and isinstance(args[1][1], str) and not kwargs:
                 return self.attr(args[0], args[1][1], fr)
             # the operator module: function spellings of Python's own operators
@@ -1166,6 +1262,13 @@ class Evaluator:
                 return ("tuple", (r, ("collected", stid)))
         if fn[0] == "partial":
             return self.call_term(fn[1], fn[2] + tuple(args), fn[3] + tuple(kwargs), fr, node)
+        if fn[0] == "attr" and fn[2] == "get" and fn[1][0] == "dict" and 1 <= len(args) <= 2 and not kwargs and args[0][0] != "const" \
+                and fn[1][1] and all(k is not None and k[0] in ("name", "const") for k, _ in fn[1][1]):
+            # a dispatch table: {k1: v1, k2: v2}.get(key, default) is  v1 if key == k1 else v2 if key == k2 else default
+            out = args[1] if len(args) == 2 else NONE
+            for k, v in reversed(fn[1][1]):
+                out = ("ifexp", ("cmp", "==", args[0], k), v, out)
+            return out
         if fn[0] == "call" and fn[1] == ("name", "operator.itemgetter") and len(fn[2]) == 1 and len(args) == 1 and not kwargs:
             return self.index(args[0], fn[2][0])
         if fn[0] == "call" and fn[1] == ("name", "operator.attrgetter") and len(fn[2]) == 1 and fn[2][0][0] == "const" \
@@ -1208,6 +1311,19 @@ class Evaluator:
         return None
 
     def static_isinstance(self, v, cls):
+        if cls[0] in ("tuple", "list") and cls[1]:
+            rs = [self.static_isinstance(v, c) for c in cls[1]]
+            if any(r is True for r in rs):
+                return True
+            if all(r is False for r in rs):
+                return False
+            return None
+        if v[0] == "call" and v[1] in (("name", "builtins.list"), ("name", "builtins.tuple"), ("name", "builtins.dict")):
+            return cls == v[1]
+        if v[0] == "list" and cls == ("name", "builtins.list"):
+            return True
+        if v[0] in ("list", "tuple", "dict") and cls in (("name", "builtins.list"), ("name", "builtins.tuple"), ("name", "builtins.dict")):
+            return cls == ("name", "builtins." + v[0])
         if v[0] == "const":
             if cls == ("name", "builtins.dict") or cls == ("name", "builtins.tuple") or cls == ("name", "builtins.list"):
                 return False
